@@ -71,6 +71,17 @@ func genC01w(r *core.Rand, p *core.Plan) {
 			p.Ops = append(p.Ops[:at], append([]core.Op{op}, p.Ops[at:]...)...)
 		}
 	}
+	// a single imported key that is paid later, in a third of the plans
+	if r.Chance(1, 3) && len(p.Ops) > 6 {
+		at := r.Range(3, len(p.Ops)-2)
+		ins := []core.Op{{K: "importkey", A: []int64{int64(r.Intn(3))}}}
+		p.Ops = append(p.Ops[:at], append(ins, p.Ops[at:]...)...)
+		for i := 0; i < r.Range(1, 2); i++ {
+			at2 := r.Range(at+1, len(p.Ops))
+			f := []core.Op{{K: "fundkey", A: []int64{0, int64(r.Range(1, 40)) * 1e6}}}
+			p.Ops = append(p.Ops[:at2], append(f, p.Ops[at2:]...)...)
+		}
+	}
 }
 
 func (x *world) checkC01w(label string) {
